@@ -11,13 +11,13 @@ namespace Clikit.Props.C19
 open Clikit Clikit.Spinner
 
 /-- **Tie to the source.**  What the hand-written model hard-codes about `progress_indicator.py`, against the
-facts regenerated from the current source on every run (`tools/genparts/c19.py`): `auto()` catches exactly
-`(Exception, KeyboardInterrupt)` and its handler writes the newline, sets the event, joins, re-raises; the normal
+facts regenerated from the current source on every run (`tools/genparts/c19.py`): `auto()` catches
+`BaseException` (repair of D32) and its handler writes the newline, sets the event, joins, re-raises; the normal
 exit is `finish(end, reset_indicator=True)`; `finish` sets the event and joins before it changes the message,
 resets, draws the frame, writes the newline and clears `_started`; a frame is ONE stream write; the throttle
 comparison is strict. -/
 theorem source_shape :
-    Gen.C19.caught = ["Exception", "KeyboardInterrupt"] ∧
+    Gen.C19.caught = ["BaseException"] ∧
     Gen.C19.excPath = ["write_line", "set", "join", "raise"] ∧
     Gen.C19.exitResets = true ∧
     Gen.C19.finishStop = ["set", "join"] ∧
@@ -82,29 +82,48 @@ theorem frame_shape_auto (cfg : Cfg) (hv : 0 < cfg.values.length) (s : Schedule)
     obtain ⟨i, m, hm, rfl⟩ := hf
     exact .inr ⟨value cfg i, value_mem cfg i hv, m, hm, rfl⟩
 
-/-- The full demand of the property: however the block is left, the spinner has been stopped and joined. -/
-def always_joined_full : Prop :=
-  ∀ (cfg : Cfg) (s : Schedule) (o : Outcome), (run cfg s init).main = .exited o → (run cfg s init).spin = .done
+/-- **Always joined.**  Under every schedule, however main has left the block - normally, by an `Exception`,
+a `KeyboardInterrupt`, `SystemExit` or any other `BaseException` raised in the body - the spinner's pc is `done`:
+it was stopped and joined.  (No other outcome is reachable: the protocol itself never fails, and no exception
+passes `auto()` unhandled.) -/
+theorem always_joined (cfg : Cfg) (s : Schedule) (o : Outcome) (h : (run cfg s init).main = .exited o) :
+    (run cfg s init).spin = .done := by
+  have hi := (reach_inv cfg s).1
+  cases o with
+  | normal => exact hi.joined (by rw [h]; rfl)
+  | raised k => exact hi.joined (by rw [h]; rfl)
+  | error e => exact absurd h (hi.noErr e)
+  | escaped k =>
+    have := reach_notEscaped cfg s
+    rw [h] at this
+    simp [notEscaped] at this
 
-/-- **Always joined** (partial: exits the code handles).  Under every schedule, when main has left the block
-normally or by an `Exception` / `KeyboardInterrupt` raised in the body, the spinner's pc is `done`.
-Missing with respect to `always_joined_full`: bodies that raise any other `BaseException` (`SystemExit`,
-`GeneratorExit`): for those the statement is FALSE for the code, see `Counter.c19_always_joined_full_fails`
-and `uncaught_leaves_spinner_running`.  Holds for the pre-fix write protocol as well. -/
-theorem always_joined_partial (old : Bool) (cfg : Cfg) (s : Schedule) (o : Outcome)
+/-- ... and every exception kind a body can raise is handled and re-raised as such. -/
+theorem every_exit_is_handled (cfg : Cfg) (s : Schedule) (o : Outcome) (h : (run cfg s init).main = .exited o) :
+    o = .normal ∨ ∃ k, o = .raised k := by
+  cases o with
+  | normal => exact .inl rfl
+  | raised k => exact .inr ⟨k, rfl⟩
+  | error e => exact absurd h ((reach_inv cfg s).1.noErr e)
+  | escaped k =>
+    have := reach_notEscaped cfg s
+    rw [h] at this
+    simp [notEscaped] at this
+
+/-- The same for every variant of the code (also the pre-fix ones): exits that went through `finish()` or
+through the `except` clause have stopped and joined the spinner. -/
+theorem always_joined_handled (old : Proto) (cfg : Cfg) (s : Schedule) (o : Outcome)
     (h : (runG old cfg s init).main = .exited o)
-    (ho : o = .normal ∨ ∃ k, k.caught = true ∧ o = .raised k) : (runG old cfg s init).spin = .done := by
+    (ho : o = .normal ∨ ∃ k, o = .raised k) : (runG old cfg s init).spin = .done := by
   have hi := reach_invG old cfg s
   apply hi.joined
   rw [h]
-  rcases ho with rfl | ⟨k, hk, rfl⟩
-  · rfl
-  · simpa [pastJoin] using hk
+  rcases ho with rfl | ⟨k, rfl⟩ <;> rfl
 
-/-- A body raising a `BaseException` that `auto()` does not catch leaves the block with the spinner started,
-not stopped, and the event never set - under every schedule, and for ever after. -/
-theorem uncaught_leaves_spinner_running (old : Bool) (cfg : Cfg) (s : Schedule) (k : ExcKind)
-    (hk : k.caught = false) (h : (runG old cfg s init).main = .exited (.raised k)) :
+/-- In every variant: an exception that passes `auto()` unhandled leaves the block with the spinner started,
+not stopped, and the event not set. -/
+theorem escaped_leaves_spinner_running (old : Proto) (cfg : Cfg) (s : Schedule) (k : ExcKind)
+    (h : (runG old cfg s init).main = .exited (.escaped k)) :
     (runG old cfg s init).spin ≠ .done ∧ (runG old cfg s init).spin ≠ .notStarted ∧
     (runG old cfg s init).flag = false := by
   have hi := reach_invG old cfg s
@@ -114,7 +133,7 @@ theorem uncaught_leaves_spinner_running (old : Bool) (cfg : Cfg) (s : Schedule) 
     | true =>
       have := hi.flagIff.mp hfl
       rw [h] at this
-      simp [afterSet, hk] at this
+      simp [afterSet] at this
   refine ⟨?_, ?_, hf⟩
   · intro hd
     have := hi.doneFlag hd
@@ -127,7 +146,7 @@ theorem uncaught_leaves_spinner_running (old : Bool) (cfg : Cfg) (s : Schedule) 
 /-- No failure of the protocol itself, under every schedule: the spinner thread never dies of
 `RuntimeError` (`advance` on an indicator that is not started), `start`/`finish` never raise, `join` is never
 called on a thread that was not started. -/
-theorem no_foreign_error (old : Bool) (cfg : Cfg) (s : Schedule) :
+theorem no_foreign_error (old : Proto) (cfg : Cfg) (s : Schedule) :
     (runG old cfg s init).crashed = false ∧ ∀ e, (runG old cfg s init).main ≠ .exited (.error e) :=
   ⟨(reach_invG old cfg s).noCrash, (reach_invG old cfg s).noErr⟩
 
@@ -135,9 +154,9 @@ theorem no_foreign_error (old : Bool) (cfg : Cfg) (s : Schedule) :
 the schedule has given the spinner 4 enabled steps - whatever main and the clock do in between - the spinner
 is `done`. -/
 theorem spinner_stops_within (cfg : Cfg) (s s' : Schedule) (hf : (run cfg s init).flag = true)
-    (h4 : 4 ≤ effSpin false cfg s' (run cfg s init)) : (run cfg s' (run cfg s init)).spin = .done := by
+    (h4 : 4 ≤ effSpin .now cfg s' (run cfg s init)) : (run cfg s' (run cfg s init)).spin = .done := by
   have hi := (reach_inv cfg s).1
-  apply spin_done_within false cfg s' _ hf
+  apply spin_done_within .now cfg s' _ hf
   · intro hn
     have h1 := hi.spawned.mpr hn
     have h2 := afterSet_not_beforeSpawn _ (hi.flagIff.mp hf)
@@ -147,7 +166,7 @@ theorem spinner_stops_within (cfg : Cfg) (s s' : Schedule) (hf : (run cfg s init
 /-- **`join` cannot block for ever (2).**  While main is inside the block some choice makes progress: main or
 the spinner is enabled, or everybody waits for the clock and advancing it enables one of them.  In particular a
 main thread blocked in `join` always leaves the spinner (or the clock) able to move. -/
-theorem never_stuck (old : Bool) (cfg : Cfg) (s : Schedule)
+theorem never_stuck (old : Proto) (cfg : Cfg) (s : Schedule)
     (hm : ∀ o, (runG old cfg s init).main ≠ .exited o) :
     enabledMain (runG old cfg s init) = true ∨ enabledSpin (runG old cfg s init) = true ∨
     ∃ dt, enabledMain (stepG old cfg (runG old cfg s init) (.tick dt)) = true ∨
@@ -304,12 +323,26 @@ theorem c19_mixture_old :
 example : (termOf ((trace (cfg1 [.setMessage ['b']]) raceSchedule).map (·.2))).line = [' ', '+', ' ', 'b'] := by
   decide
 
-/-- **A body that raises `SystemExit` leaves the spinner running**: the full statement of "always joined"
-is false for the code (known finding; `auto()` catches `(Exception, KeyboardInterrupt)` only). -/
-theorem c19_always_joined_full_fails : ¬ always_joined_full := by
-  intro h
-  have := h (cfg1 [.raise .systemExit]) [.main, .main, .main] (.raised .systemExit) (by decide)
-  revert this
+/-- **D32 (pre-fix exception handling): a body that raises `SystemExit` leaves the spinner running.**
+With `except (Exception, KeyboardInterrupt)` the schedule main, main, main (start frame, `Thread.start`, the body
+raises) leaves the block without running the handler, and whatever is scheduled afterwards the block stays left
+and the spinner is never `done` (with real threads: it keeps printing and the process never exits). -/
+theorem c19_uncaught_leaves_spinner_running_old (s : Schedule) :
+    (runOldExcept (cfg1 [.raise .systemExit]) ([.main, .main, .main] ++ s) init).main = .exited (.escaped .systemExit) ∧
+    (runOldExcept (cfg1 [.raise .systemExit]) ([.main, .main, .main] ++ s) init).spin ≠ .done := by
+  have h0 : (runG .d32 (cfg1 [.raise .systemExit]) [.main, .main, .main] init).main = .exited (.escaped .systemExit) := by
+    decide
+  have h1 : (runOldExcept (cfg1 [.raise .systemExit]) ([.main, .main, .main] ++ s) init).main
+      = .exited (.escaped .systemExit) := by
+    unfold runOldExcept
+    rw [runG_append]
+    exact exited_stable _ _ _ s _ h0
+  exact ⟨h1, (escaped_leaves_spinner_running .d32 _ _ _ h1).1⟩
+
+/-- the same program in the code as it is: the handler runs, the spinner is stopped and joined -/
+example : (run (cfg1 [.raise .systemExit]) [.main, .main, .main, .spin, .main, .main, .spin, .spin, .main] init).main
+      = .exited (.raised .systemExit) ∧
+    (run (cfg1 [.raise .systemExit]) [.main, .main, .main, .spin, .main, .main, .spin, .spin, .main] init).spin = .done := by
   decide
 
 end Counter
